@@ -21,7 +21,7 @@ from ..core import native as N
 from ..core import result as R
 from ..core import solver as S
 from ..core.errors import Undecided, Unsupported, EngineFault
-from ..core.paths import DeadPath
+from ..core.paths import DeadPath, PathBudget
 from ..core.result import ObResult
 from . import paths as P
 from . import scalar as SC
@@ -317,7 +317,7 @@ def verify_config(contract, cfg, tier="quick", seed=0, timeout_s=10.0, spec_fact
                     out = contract.run(W, cfg, inp)
                 except (Unsupported, Undecided, DeadPath):
                     raise
-                except P.PathBudget:
+                except PathBudget:
                     raise
                 except Exception as e:  # the real code raised: an outcome, judged by the contract
                     if isinstance(e, (AssertionError,)) and "qverif" in "".join(traceback.format_tb(e.__traceback__)):
@@ -712,22 +712,25 @@ def canary_check(contract, cfg, W, Wn, twin, mk0, names, rng, spec_factory, time
     found = False
     detail = "canary was not refuted"
     try:
-        sp.start_path()
-        symrandom.reset()
-        mk = Mk(W)
-        inp = contract.inputs(W, cfg, mk)
+      while sp.has_next() and not found and not detail.startswith("canary clause"):
         try:
-            out = contract.run(W, cfg, inp)
-        except (Unsupported, Undecided):
-            raise
-        except Exception as e:  # noqa
-            out = Raised(e)
-        cls = list(contract.canary(W, cfg, inp, out))
+            sp.start_path()
+            symrandom.reset()
+            mk = Mk(W)
+            inp = contract.inputs(W, cfg, mk)
+            try:
+                out = contract.run(W, cfg, inp)
+            except (Unsupported, Undecided, DeadPath, PathBudget):
+                raise
+            except Exception as e:  # noqa
+                out = Raised(e)
+            cls = list(contract.canary(W, cfg, inp, out))
+        except DeadPath:
+            continue
         for cl in cls:
             r = discharge(cl, sp, timeout_s)
             if r["status"] == "proved":
-                detail = f"canary clause {cl.label} VERIFIED: the check is vacuous"
-                break
+                continue
             # confirm natively
             for vals in candidate_envs(contract, cfg, [(cl, r)], mk0, names, rng, n_random=10):
                 mkn = Mk(Wn, env=vals)
@@ -745,6 +748,8 @@ def canary_check(contract, cfg, W, Wn, twin, mk0, names, rng, spec_factory, time
                     break
             if found:
                 break
+      if not found and not sp.has_next() and detail == "canary was not refuted":
+        detail = "canary clause VERIFIED on every path or never confirmed natively: the check may be vacuous"
     except DeadPath:
         pass
     finally:
